@@ -396,7 +396,12 @@ class Worker:
         """Return the next ready task if one exists, otherwise block."""
         while True:
             if self._ready_task_ids.empty() and len(self._delayed_tasks) > 0:
-                self._add_task(self._delayed_tasks.pop())
+                try:
+                    delayed_task = self._delayed_tasks.pop()
+                except IndexError:
+                    # Emptied by a cancel handled since the check above
+                    continue
+                self._add_task(delayed_task)
                 continue
 
             # Critical section
